@@ -280,11 +280,8 @@ class Script:
                         tap_script = witness.tap_script()
                         commands = witness[:-2] + tap_script.commands[:]
                         op_lookup = TAPROOT_OP_CODE_FUNCTIONS
-        if len(stack) == 0:
-            return False
-        if stack.pop() == b"":
-            return False
-        return True
+        # success iff the stack is non-empty and its top is true (any zero, incl. negative zero, is false)
+        return op_verify(stack)
 
     def is_p2pkh(self):
         """Returns whether the script follows the
